@@ -242,10 +242,12 @@ func (b *BaseStore) InitBaseStore(ipfs coreiface.CoreAPI, identity *identityprov
 	b.index = options.Index(b.Identity().PublicKey)
 	b.muIndex.Unlock()
 
+	// the replicator gets an event bus of its own: its events carry no store
+	// address, and on a bus shared with other stores every store would react
+	// to the replication activity of the others
 	b.replicator, err = replicator.NewReplicator(b, options.ReplicationConcurrency, &replicator.Options{
-		Logger:   b.logger,
-		EventBus: b.eventBus,
-		Tracer:   b.tracer,
+		Logger: b.logger,
+		Tracer: b.tracer,
 	})
 	if err != nil {
 		return fmt.Errorf("unable to init error: %w", err)
